@@ -663,12 +663,25 @@ class MethodType(Enum):
 class RpcError(Exception):
     """Raised on the client side when the server reports an error."""
 
-    def __init__(self, error_type: str, error_message: str, remote_traceback: str, *, request_id: str = "") -> None:
-        """Initialize with error details from the remote side."""
+    def __init__(
+        self,
+        error_type: str,
+        error_message: str,
+        remote_traceback: str,
+        *,
+        request_id: str = "",
+        error_kind: str | None = None,
+    ) -> None:
+        """Initialize with error details from the remote side.
+
+        ``error_kind`` is the stable machine-readable category (``vgi_rpc.error_kind``) the
+        server attaches to typed framework errors, or ``None`` for an unclassified error.
+        """
         self.error_type = error_type
         self.error_message = error_message
         self.remote_traceback = remote_traceback
         self.request_id = request_id
+        self.error_kind = error_kind
         super().__init__(f"{error_type}: {error_message}")
 
 
